@@ -210,7 +210,9 @@ CHECKS["C15"] = {
             "sockets/listeners == those of the model's live allocations, Server.AllocationCount == their number, lifecycle callbacks pair up (no delete without create, none twice, outstanding == live model entries); then a drain "
             "through all deadlines, 2 h of silence (no callback, no socket activity on behalf of ended allocations), Server.Close (nothing owned by the server stays open, count 0) and goroutine drain of the bubble. "
             "A class is (event class => response); distinct_nontrivial counts those.",
-    "parts": [A("vtx", "./checks/c15", "TestC15", budget={"quick": 90, "thorough": 1500})],
+    "parts": [A("vtx", "./checks/c15", "TestC15", budget={"quick": 90, "thorough": 1500}),
+              A("rich", "./checks/c15", "TestC15Rich", budget={"quick": 60, "thorough": 900}),
+              A("sched", "./checks/bsem", "TestC15Sched", overlay=True, gomaxprocs=1, budget={"quick": 90, "thorough": 1500})],
 }
 
 CHECKS["C16"] = {
